@@ -1,34 +1,38 @@
 // vsched runtime + explorer. Compiled WITHOUT instrumentation. See vsched.h and DESIGN.md section 3.1.
 //
-// Execution model: every execution of a scenario runs in a forked child (identical address space, so an
-// execution is a pure function of its schedule).  Virtual threads are real pthreads; exactly one holds the
-// baton; every hooked operation (atomic, volatile access, conflict-location access, lock call, yield) is a
-// scheduling point at which the explorer's schedule decides who runs next.
+// Execution model: one explorer process per scenario (forked by a tiny supervisor that survives crashes of the
+// code under test).  Executions are run one after the other inside the explorer process: persistent virtual
+// threads (real pthreads, fixed stacks), exactly one holds the baton; every hooked operation (atomic,
+// volatile access, conflict-location access, lock call, yield) is a scheduling point at which the schedule
+// decides who runs next.  All memory the code under test allocates comes from per-thread bump arenas at fixed
+// addresses that are wiped between executions, so an execution is a pure function of its schedule.
 #include "vsched.h"
-#include <atomic>
+#include <algorithm>
 #include <cerrno>
 #include <cstdarg>
 #include <cstdio>
 #include <cstdlib>
 #include <cstring>
 #include <linux/futex.h>
+#include <new>
 #include <pthread.h>
 #include <sched.h>
+#include <set>
 #include <signal.h>
 #include <string>
 #include <sys/mman.h>
+#include <sys/personality.h>
 #include <sys/syscall.h>
 #include <sys/wait.h>
 #include <time.h>
 #include <unistd.h>
 #include <vector>
-#include <set>
-#include <map>
-#include <algorithm>
 
-#define MAXP (1 << 18)
-#define NCONF (1 << 16)
-#define OBSCAP 8192
+#define MAXP (1 << 17)
+#define NCONF (1 << 14)
+#define OBSCAP 4096
+#define NACC (1 << 14)
+#define ARENA_SIZE (64u << 20)
 
 enum Result { RES_OK = 0, RES_CHECK = 1, RES_INVARIANT = 2, RES_DEADLOCK = 3, RES_LIVELOCK = 4, RES_DIVERGED = 5, RES_INTERNAL = 6 };
 static const char* result_name(int r) {
@@ -43,39 +47,89 @@ static const char* result_name(int r) {
     }
 }
 
+// Shared between supervisor and explorer child (survives a crash of the child).
 struct Shared {
-    // input
+    // the execution currently running (or the one that ended the exploration)
     int prefix_len;
-    int forced;  // 1: prefix is a forced thread-id schedule (one entry per decision, thread ids), used by model replay
+    int forced;
     int use_dpoints;
     long horizon;
     unsigned char prefix[MAXP];
-    // output
-    int done;
-    int result;
+    int running;        // 1 while an execution is in flight
+    int result;         // Result of the last finished execution
     int trace_len;
     unsigned char nopts[MAXP];
     unsigned char chosen[MAXP];
     unsigned char cur_enabled[MAXP];
     unsigned char chosen_tid[MAXP];
     long points;
-    long decisions;
     unsigned long long outcome_hash;
     char obs[OBSCAP];
-    // conflict locations (open addressing hash set of addresses); D = used by this pass, Dnew = found by runs
+    // conflict locations used by the current pass / found so far
     uintptr_t D[NCONF];
     uintptr_t Dnew[NCONF];
-    int dnew_count;
-    // state hashing at decision points (optional)
-    unsigned long long state_hash[1];
+    int d_count, dnew_count;
+    // progress of the exploration
+    long executions, transitions, decisions, nodes;
+    int bound_completed, bound_running, passes, capped, finished;
+    int distinct_outcomes;
+    int nsamples;
+    char samples[3][1024];
+    int violation;       // 1: the last execution violated (kind in vkind)
+    char vkind[128];
 };
 
 static Shared* S;
 
-// ------------------------------------------------------------------------------------------------ child side
+// ------------------------------------------------------------------------------------------------ arenas
+static char* g_arena[VS_MAX_THREADS + 1];
+static size_t g_arena_used[VS_MAX_THREADS + 1];
+static volatile int g_arena_on = 0;
+static __thread int tl_tid = -1;
+static __thread int tl_inrt = 0;
+
+static inline bool in_arena(void* p) {
+    return g_arena[0] && (char*)p >= g_arena[0] && (char*)p < g_arena[0] + (size_t)(VS_MAX_THREADS + 1) * ARENA_SIZE;
+}
+static void* arena_alloc(size_t n, size_t al) {
+    int a = tl_tid >= 0 ? tl_tid + 1 : 0;
+    size_t off = (g_arena_used[a] + al - 1) & ~(al - 1);
+    if (off + n > ARENA_SIZE) { fprintf(stderr, "vsched: arena %d exhausted\n", a); _exit(2); }
+    g_arena_used[a] = off + n;
+    return g_arena[a] + off;
+}
+static void* vs_new(size_t n, size_t al) {
+    if (n == 0) n = 1;
+    if (g_arena_on && g_arena[0]) return arena_alloc(n, al < 16 ? 16 : al);
+    void* p = nullptr;
+    if (al <= 16) p = malloc(n);
+    else if (posix_memalign(&p, al, n) != 0) p = nullptr;
+    if (!p) { fprintf(stderr, "vsched: out of memory\n"); _exit(2); }
+    return p;
+}
+static void vs_delete(void* p) {
+    if (!p || in_arena(p)) return;
+    free(p);
+}
+void* operator new(size_t n) { return vs_new(n, 16); }
+void* operator new[](size_t n) { return vs_new(n, 16); }
+void* operator new(size_t n, const std::nothrow_t&) noexcept { return vs_new(n, 16); }
+void* operator new[](size_t n, const std::nothrow_t&) noexcept { return vs_new(n, 16); }
+void* operator new(size_t n, std::align_val_t a) { return vs_new(n, (size_t)a); }
+void* operator new[](size_t n, std::align_val_t a) { return vs_new(n, (size_t)a); }
+void operator delete(void* p) noexcept { vs_delete(p); }
+void operator delete[](void* p) noexcept { vs_delete(p); }
+void operator delete(void* p, size_t) noexcept { vs_delete(p); }
+void operator delete[](void* p, size_t) noexcept { vs_delete(p); }
+void operator delete(void* p, std::align_val_t) noexcept { vs_delete(p); }
+void operator delete[](void* p, std::align_val_t) noexcept { vs_delete(p); }
+void operator delete(void* p, size_t, std::align_val_t) noexcept { vs_delete(p); }
+void operator delete[](void* p, size_t, std::align_val_t) noexcept { vs_delete(p); }
+
+// ------------------------------------------------------------------------------------------------ explorer-process side
 namespace {
 
-enum TState { T_NEW, T_RUNNABLE, T_BLOCKED_MUTEX, T_BLOCKED_SPIN, T_DONE };
+enum TState { T_IDLE, T_RUNNABLE, T_BLOCKED_MUTEX, T_BLOCKED_SPIN, T_DONE };
 
 struct LogEnt {
     void* pc;
@@ -86,32 +140,33 @@ struct LogEnt {
 
 struct VThread {
     pthread_t th;
+    bool created;
     int go;  // futex word
     TState st;
-    uintptr_t wait_obj;       // mutex / rwlock waited for
-    int wait_mode;            // 0 mutex, 1 rdlock, 2 wrlock
+    uintptr_t wait_obj;
     uintptr_t spin_addrs[8];
     int nspin;
     LogEnt log[32];
-    int logn;                 // total entries appended
+    int logn;
     uintptr_t pending_wake[4];
     int npending;
     bool yielded;
-    std::string notes;
+    char notes[1024];
+    int notes_len;
     char* stack_lo;
     char* stack_hi;
 };
 
 VThread T[VS_MAX_THREADS];
+alignas(4096) char g_stacks[VS_MAX_THREADS][1 << 20];
 int NT = 0;
 volatile int g_controlled = 0;
-int g_cur = -1;
+int g_main_go = 0;
 long g_points = 0;
-int g_pos = 0;         // decision index
+int g_pos = 0;
 int g_rescues = 0;
 int (*g_invariant)(std::string&) = nullptr;
-__thread int tl_tid = -1;
-__thread int tl_inrt = 0;
+int g_debug = 0;
 
 struct VMutex { uintptr_t addr; int owner; };
 struct VRw { uintptr_t addr; int writer; int readers; unsigned char rd[VS_MAX_THREADS]; };
@@ -120,76 +175,84 @@ int g_nmutex = 0;
 VRw g_rws[64];
 int g_nrw = 0;
 
-// per-execution access table for conflict detection
 struct Acc { uintptr_t addr; unsigned char readers, writers; };
-#define NACC (1 << 14)
 Acc g_acc[NACC];
+int g_acc_used[NACC];
+int g_nacc = 0;
 
 long sys_futex(int* uaddr, int op, int val) { return syscall(SYS_futex, uaddr, op, val, nullptr, nullptr, 0); }
-
-void wake(int t) {
-    __atomic_store_n(&T[t].go, 1, __ATOMIC_SEQ_CST);
-    sys_futex(&T[t].go, FUTEX_WAKE, 1);
+void wake_word(int* w) {
+    __atomic_store_n(w, 1, __ATOMIC_SEQ_CST);
+    sys_futex(w, FUTEX_WAKE, 1);
 }
-void sleep_self(int t) {
-    while (__atomic_load_n(&T[t].go, __ATOMIC_SEQ_CST) == 0) sys_futex(&T[t].go, FUTEX_WAIT, 0);
-    __atomic_store_n(&T[t].go, 0, __ATOMIC_SEQ_CST);
+void sleep_word(int* w) {
+    while (__atomic_load_n(w, __ATOMIC_SEQ_CST) == 0) sys_futex(w, FUTEX_WAIT, 0);
+    __atomic_store_n(w, 0, __ATOMIC_SEQ_CST);
 }
 
-[[noreturn]] void finish(int result, const std::string& extra) {
-    // called with the baton held (or from main after join)
+std::string all_notes() {
     std::string obs;
-    for (int i = 0; i < NT; i++) {
-        obs += "T" + std::to_string(i) + ":" + T[i].notes + " ";
-    }
-    obs += extra;
+    for (int i = 0; i < NT; i++) obs += "T" + std::to_string(i) + ":" + std::string(T[i].notes, T[i].notes_len) + " ";
+    return obs;
+}
+
+void store_result(int result, const std::string& obs) {
     S->result = result;
     S->points = g_points;
-    S->decisions = g_pos;
     S->trace_len = g_pos < MAXP ? g_pos : MAXP;
     unsigned long long h = 1469598103934665603ULL;
     for (char c : obs) { h ^= (unsigned char)c; h *= 1099511628211ULL; }
     S->outcome_hash = h;
     strncpy(S->obs, obs.c_str(), OBSCAP - 1);
     S->obs[OBSCAP - 1] = 0;
-    S->done = 1;
-    _exit(0);
+}
+
+// A violation (or an internal problem) detected while threads are still alive: record it and leave the process;
+// the supervisor reports it.  Exploration of a scenario ends at its first violation.
+[[noreturn]] void die(int result, const std::string& extra) {
+    store_result(result, all_notes() + extra);
+    S->violation = 1;
+    snprintf(S->vkind, sizeof S->vkind, "%s", result_name(result));
+    S->running = 0;
+    _exit(3);
 }
 
 bool in_D(uintptr_t a) {
-    unsigned h = (unsigned)((a * 0x9E3779B97F4A7C15ULL) >> 48) & (NCONF - 1);
-    for (int k = 0; k < 64; k++) {
+    unsigned h = (unsigned)(a >> 2) & (NCONF - 1);
+    for (int k = 0; k < 256; k++) {
         uintptr_t v = S->D[(h + k) & (NCONF - 1)];
         if (v == a) return true;
         if (v == 0) return false;
     }
     return false;
 }
-void add_set(uintptr_t* tab, uintptr_t a, int* count) {
-    unsigned h = (unsigned)((a * 0x9E3779B97F4A7C15ULL) >> 48) & (NCONF - 1);
-    for (int k = 0; k < 64; k++) {
+bool add_set(uintptr_t* tab, uintptr_t a, int* count) {
+    unsigned h = (unsigned)(a >> 2) & (NCONF - 1);
+    for (int k = 0; k < 256; k++) {
         uintptr_t& v = tab[(h + k) & (NCONF - 1)];
-        if (v == a) return;
-        if (v == 0) { v = a; if (count) (*count)++; return; }
+        if (v == a) return true;
+        if (v == 0) { v = a; if (count) (*count)++; return true; }
     }
+    return false;
 }
 
 void record_access(uintptr_t a, bool write) {
-    unsigned h = (unsigned)(a >> 2) & (NACC - 1);   // neighbouring addresses share pages of the table
-    for (int k = 0; k < 256; k++) {
-        Acc& e = g_acc[(h + k) & (NACC - 1)];
-        if (e.addr == a || e.addr == 0) {
-            e.addr = a;
+    unsigned h = (unsigned)(a >> 2) & (NACC - 1);
+    for (int k = 0; k < 512; k++) {
+        int idx = (h + k) & (NACC - 1);
+        Acc& e = g_acc[idx];
+        if (e.addr == 0) { e.addr = a; g_acc_used[g_nacc++] = idx; }
+        if (e.addr == a) {
             unsigned char bit = (unsigned char)(1u << tl_tid);
             if (write) e.writers |= bit; else e.readers |= bit;
             unsigned char all = e.readers | e.writers;
-            if (e.writers && (all & (all - 1))) {   // >= 2 threads, at least one writer
-                if (!in_D(a)) add_set(S->Dnew, a, &S->dnew_count);
+            if (e.writers && (all & (all - 1))) {
+                if (!in_D(a) && !add_set(S->Dnew, a, &S->dnew_count)) die(RES_INTERNAL, "conflict table full");
             }
             return;
         }
     }
-    finish(RES_INTERNAL, "access table full");
+    die(RES_INTERNAL, "access table full");
 }
 
 bool enabled(int t) { return T[t].st == T_RUNNABLE; }
@@ -212,13 +275,11 @@ void flush_pending(int me) {
 void run_invariant() {
     if (!g_invariant) return;
     std::string why;
-    tl_inrt++;
     int r = g_invariant(why);
-    tl_inrt--;
-    if (r) finish(RES_INVARIANT, "INVARIANT: " + why);
+    if (r) die(RES_INVARIANT, "INVARIANT: " + why);
 }
 
-// Decide who runs next; called by thread `me` holding the baton. `me_can_run`: me is still enabled.
+// Decide who runs next; called by thread `me` (or -1 = main at the start) holding the baton.
 void decide(int me) {
     for (;;) {
         int opts[VS_MAX_THREADS];
@@ -227,14 +288,14 @@ void decide(int me) {
         if (me_en) opts[n++] = me;
         for (int t = 0; t < NT; t++)
             if (t != me && enabled(t)) opts[n++] = t;
-        if (n == 0 && me >= 0 && enabled(me) && T[me].yielded) { opts[n++] = me; }
+        if (n == 0 && me >= 0 && enabled(me) && T[me].yielded) opts[n++] = me;
         if (n == 0) {
             bool all_done = true, any_spin = false;
             for (int t = 0; t < NT; t++) {
                 if (T[t].st != T_DONE) all_done = false;
                 if (T[t].st == T_BLOCKED_SPIN) any_spin = true;
             }
-            if (all_done) return;   // last thread exiting; main continues after join
+            if (all_done) { if (g_debug) (void)!write(2, "alldone\n", 8); wake_word(&g_main_go); return; }
             if (any_spin && g_rescues < 2) {
                 g_rescues++;
                 for (int t = 0; t < NT; t++)
@@ -243,59 +304,55 @@ void decide(int me) {
             }
             std::string w = "no enabled thread:";
             for (int t = 0; t < NT; t++) {
-                char b[128];
+                char b[64];
                 snprintf(b, sizeof b, " T%d=%s", t, T[t].st == T_DONE ? "done" : T[t].st == T_BLOCKED_MUTEX ? "blocked-on-lock" : T[t].st == T_BLOCKED_SPIN ? "spinning" : "?");
                 w += b;
             }
-            finish(RES_DEADLOCK, w);
+            die(RES_DEADLOCK, w);
         }
         int pick = 0;
         if (me >= 0) T[me].yielded = false;
         if (n >= 2) {
             int pos = g_pos++;
-            if (pos >= MAXP) finish(RES_LIVELOCK, "decision horizon");
+            if (pos >= MAXP) die(RES_LIVELOCK, "decision horizon");
             int c = 0;
             if (pos < S->prefix_len) {
                 c = S->prefix[pos];
                 if (S->forced) {
-                    // forced thread id: find it among the options
-                    int want = c, idx = -1;
-                    for (int k = 0; k < n; k++) if (opts[k] == want) idx = k;
-                    if (idx < 0) finish(RES_DIVERGED, "forced thread not enabled at decision " + std::to_string(pos));
+                    int idx = -1;
+                    for (int k = 0; k < n; k++) if (opts[k] == c) idx = k;
+                    if (idx < 0) die(RES_DIVERGED, "forced thread not enabled at decision " + std::to_string(pos));
                     c = idx;
                 } else if (c >= n) {
-                    finish(RES_DIVERGED, "prefix choice out of range at decision " + std::to_string(pos));
+                    die(RES_DIVERGED, "prefix choice out of range at decision " + std::to_string(pos));
                 }
             }
             S->nopts[pos] = (unsigned char)n;
             S->chosen[pos] = (unsigned char)c;
             S->cur_enabled[pos] = me_en ? 1 : 0;
             S->chosen_tid[pos] = (unsigned char)opts[c];
+            S->trace_len = pos + 1;
             pick = c;
-        } else if (S->forced && g_pos < S->prefix_len) {
-            // single option: forced schedules list only real decisions
         }
         int next = opts[pick];
+        if (g_debug) { char b[128]; int k = snprintf(b, sizeof b, "x%ld p%ld me=%d n=%d next=%d st=%d,%d\n", S->executions, g_points, me, n, next, (int)T[0].st, (int)T[1].st); (void)!write(2, b, k); }
         if (next != me) {
-            g_cur = next;
-            wake(next);
-            if (me >= 0 && T[me].st != T_DONE) {
-                sleep_self(me);
-            }
+            // after the baton is handed over this thread must not look at shared scheduler state any more
+            // (the next execution may already have been set up by the time it runs again)
+            bool me_sleeps = (me >= 0 && T[me].st != T_DONE);
+            wake_word(&T[next].go);
+            if (me_sleeps) sleep_word(&T[me].go);
         }
         return;
     }
 }
 
-// spin detection on the thread's recent log
 bool spinning(VThread& t) {
     for (int p = 1; p <= 4; p++) {
         if (t.logn < 3 * p) continue;
         bool ok = true;
-        for (int i = 0; i < 3 * p && ok; i++) {
-            const LogEnt& e = t.log[(t.logn - 1 - i) & 31];
-            if (e.wrote) ok = false;
-        }
+        for (int i = 0; i < 3 * p && ok; i++)
+            if (t.log[(t.logn - 1 - i) & 31].wrote) ok = false;
         for (int i = 0; i < p && ok; i++) {
             const LogEnt& a = t.log[(t.logn - 1 - i) & 31];
             const LogEnt& b = t.log[(t.logn - 1 - i - p) & 31];
@@ -316,12 +373,12 @@ bool spinning(VThread& t) {
     return false;
 }
 
-// A scheduling point BEFORE an operation of thread me on addr. Returns when me holds the baton again.
-void point(uintptr_t addr) {
+// A scheduling point BEFORE an operation of the calling thread. Returns when it holds the baton again.
+void point() {
     int me = tl_tid;
     flush_pending(me);
     run_invariant();
-    if (++g_points > S->horizon) finish(RES_LIVELOCK, "step horizon exceeded");
+    if (++g_points > S->horizon) die(RES_LIVELOCK, "step horizon exceeded");
     decide(me);
 }
 
@@ -336,9 +393,7 @@ void after_op(void* pc, uintptr_t addr, unsigned long long val, bool wrote) {
     if (spinning(t)) {
         t.st = T_BLOCKED_SPIN;
         t.logn = 0;
-        // a free switch: someone else must change one of the addresses
         decide(me);
-        // resumed: we are RUNNABLE again
     }
 }
 
@@ -354,7 +409,6 @@ unsigned long long peek(uintptr_t a, int sz) {
         case 1: return *(volatile unsigned char*)a;
         case 2: return *(volatile unsigned short*)a;
         case 4: return *(volatile unsigned int*)a;
-        case 8: return *(volatile unsigned long long*)a;
         default: return *(volatile unsigned long long*)a;
     }
 }
@@ -366,7 +420,7 @@ void plain_access(void* p, int sz, bool write, bool is_volatile, void* pc) {
     if (!is_volatile) record_access(a, write);
     bool pt = is_volatile || (S->use_dpoints && in_D(a));
     if (pt) {
-        point(a);
+        point();
         if (write) {
             // the store itself happens after this hook returns: wake spinners at this thread's next hook
             VThread& t = T[tl_tid];
@@ -376,7 +430,7 @@ void plain_access(void* p, int sz, bool write, bool is_volatile, void* pc) {
             t.logn++;
             g_rescues = 0;
         } else {
-            after_op(pc, a, peek(a, sz), false);
+            after_op(pc, a, peek(a, sz > 8 ? 8 : sz), false);
         }
     }
     tl_inrt--;
@@ -384,14 +438,14 @@ void plain_access(void* p, int sz, bool write, bool is_volatile, void* pc) {
 
 VMutex* vmutex(uintptr_t a) {
     for (int i = 0; i < g_nmutex; i++) if (g_mutexes[i].addr == a) return &g_mutexes[i];
-    if (g_nmutex >= 256) return nullptr;
+    if (g_nmutex >= 256) die(RES_INTERNAL, "too many mutexes");
     g_mutexes[g_nmutex].addr = a;
     g_mutexes[g_nmutex].owner = -1;
     return &g_mutexes[g_nmutex++];
 }
 VRw* vrw(uintptr_t a) {
     for (int i = 0; i < g_nrw; i++) if (g_rws[i].addr == a) return &g_rws[i];
-    if (g_nrw >= 64) return nullptr;
+    if (g_nrw >= 64) die(RES_INTERNAL, "too many rwlocks");
     VRw& r = g_rws[g_nrw++];
     r.addr = a; r.writer = -1; r.readers = 0; memset(r.rd, 0, sizeof r.rd);
     return &r;
@@ -405,55 +459,70 @@ void wake_waiters(uintptr_t obj) {
 void* thread_main(void* arg) {
     int me = (int)(intptr_t)arg;
     tl_tid = me;
-    pthread_attr_t at;
-    pthread_getattr_np(pthread_self(), &at);
-    void* lo; size_t sz;
-    pthread_attr_getstack(&at, &lo, &sz);
-    pthread_attr_destroy(&at);
-    T[me].stack_lo = (char*)lo;
-    T[me].stack_hi = (char*)lo + sz;
-    sleep_self(me);   // wait for the baton
-    vs_thread(me);
-    // thread exit
-    tl_inrt++;
-    flush_pending(me);
-    run_invariant();
-    T[me].st = T_DONE;
-    decide(me);
-    tl_inrt--;
+    T[me].stack_lo = g_stacks[me];
+    T[me].stack_hi = g_stacks[me] + sizeof g_stacks[me];
+    for (;;) {
+        if (g_debug) { char b[64]; int k = snprintf(b, sizeof b, "T%d top go=%d\n", me, T[me].go); (void)!write(2, b, k); }
+        sleep_word(&T[me].go);   // wait for the baton of a new execution
+        if (g_debug) { char b[64]; int k = snprintf(b, sizeof b, "T%d start inrt=%d ctl=%d\n", me, tl_inrt, (int)g_controlled); (void)!write(2, b, k); }
+        vs_thread(me);
+        tl_inrt++;
+        flush_pending(me);
+        run_invariant();
+        T[me].st = T_DONE;
+        decide(me);
+        tl_inrt--;
+    }
     return nullptr;
 }
 
-alignas(4096) char g_stacks[VS_MAX_THREADS][1 << 20];
-
-void child_run(int scenario) {
-    {
-        // all virtual threads on the CPU this child happens to run on: hand-offs become same-core context switches
-        cpu_set_t set;
-        CPU_ZERO(&set);
-        int c = sched_getcpu();
-        if (c >= 0) { CPU_SET(c, &set); sched_setaffinity(0, sizeof set, &set); }
+// Runs one execution in this process. Returns the Result for normally completed executions (violations that are
+// detected while threads are alive leave the process through die()).
+int run_execution(int scenario) {
+    // wipe arenas and per-execution state
+    for (int a = 0; a <= VS_MAX_THREADS; a++) {
+        if (g_arena_used[a]) memset(g_arena[a], 0, g_arena_used[a]);
+        g_arena_used[a] = 0;
     }
-    alarm(S->horizon > 200000 ? 300 : 60);
+    for (int i = 0; i < g_nacc; i++) { Acc& e = g_acc[g_acc_used[i]]; e.addr = 0; e.readers = e.writers = 0; }
+    g_nacc = 0;
+    g_nmutex = 0;
+    g_nrw = 0;
+    g_points = 0;
+    g_pos = 0;
+    g_rescues = 0;
+    g_invariant = nullptr;
+    S->trace_len = 0;
+    S->running = 1;
+    g_arena_on = 1;
     NT = vs_setup(scenario);
-    if (NT < 1 || NT > VS_MAX_THREADS) { S->result = RES_INTERNAL; snprintf(S->obs, OBSCAP, "bad thread count %d", NT); S->done = 1; _exit(0); }
-    for (int i = 0; i < NT; i++) { T[i].st = T_RUNNABLE; T[i].go = 0; T[i].logn = 0; T[i].npending = 0; T[i].yielded = false; }
+    if (NT < 1 || NT > VS_MAX_THREADS) { fprintf(stderr, "vsched: bad thread count %d\n", NT); _exit(2); }
     for (int i = 0; i < NT; i++) {
-        pthread_attr_t at;
-        pthread_attr_init(&at);
-        pthread_attr_setstack(&at, g_stacks[i], sizeof g_stacks[i]);
-        pthread_create(&T[i].th, &at, thread_main, (void*)(intptr_t)i);
+        T[i].st = T_RUNNABLE; T[i].logn = 0; T[i].npending = 0; T[i].yielded = false; T[i].notes_len = 0; T[i].nspin = 0;
+        if (!T[i].created) {
+            g_arena_on = 0;
+            pthread_attr_t at;
+            pthread_attr_init(&at);
+            pthread_attr_setstack(&at, g_stacks[i], sizeof g_stacks[i]);
+            T[i].go = 0;
+            pthread_create(&T[i].th, &at, thread_main, (void*)(intptr_t)i);
+            T[i].created = true;
+            g_arena_on = 1;
+        }
     }
     g_controlled = 1;
-    // initial decision: which thread starts (a free choice among all threads)
-    tl_inrt++;
     decide(-1);
-    tl_inrt--;
-    for (int i = 0; i < NT; i++) pthread_join(T[i].th, nullptr);
+    sleep_word(&g_main_go);
     g_controlled = 0;
-    std::string obs;
-    int r = vs_check(obs);
-    finish(r ? RES_CHECK : RES_OK, obs);
+    int r;
+    {
+        std::string obs;
+        r = vs_check(obs);
+        store_result(r ? RES_CHECK : RES_OK, all_notes() + obs);
+    }
+    g_arena_on = 0;
+    S->running = 0;
+    return r ? RES_CHECK : RES_OK;
 }
 
 }  // namespace
@@ -462,17 +531,19 @@ void child_run(int scenario) {
 namespace vs {
 void set_step_invariant(int (*fn)(std::string&)) { g_invariant = fn; }
 void note(const char* fmt, ...) {
-    char b[512];
+    if (tl_tid < 0) return;
+    VThread& t = T[tl_tid];
     va_list ap;
     va_start(ap, fmt);
-    vsnprintf(b, sizeof b, fmt, ap);
+    int room = (int)sizeof(t.notes) - t.notes_len;
+    int n = vsnprintf(t.notes + t.notes_len, room > 0 ? room : 0, fmt, ap);
     va_end(ap);
-    if (tl_tid >= 0) { tl_inrt++; T[tl_tid].notes += b; tl_inrt--; }
+    if (n > 0) t.notes_len = std::min((int)sizeof(t.notes) - 1, t.notes_len + n);
 }
 void ghost_point() {
     if (!hooks_on()) return;
     tl_inrt++;
-    point(0);
+    point();
     tl_inrt--;
 }
 int self() { return tl_tid; }
@@ -515,29 +586,29 @@ void __tsan_write_range_pc(void* a, unsigned long n, void*) { __tsan_write_range
 #define ATOMIC(BITS, TY) \
     TY __tsan_atomic##BITS##_load(const volatile TY* a, int) { \
         if (!hooks_on()) return __atomic_load_n(a, __ATOMIC_SEQ_CST); \
-        tl_inrt++; point((uintptr_t)a); TY v = __atomic_load_n(a, __ATOMIC_SEQ_CST); after_op(RA, (uintptr_t)a, (unsigned long long)v, false); tl_inrt--; return v; } \
+        tl_inrt++; point(); TY v = __atomic_load_n(a, __ATOMIC_SEQ_CST); after_op(RA, (uintptr_t)a, (unsigned long long)v, false); tl_inrt--; return v; } \
     void __tsan_atomic##BITS##_store(volatile TY* a, TY v, int) { \
         if (!hooks_on()) { __atomic_store_n(a, v, __ATOMIC_SEQ_CST); return; } \
-        tl_inrt++; point((uintptr_t)a); TY o = __atomic_load_n(a, __ATOMIC_SEQ_CST); __atomic_store_n(a, v, __ATOMIC_SEQ_CST); after_op(RA, (uintptr_t)a, (unsigned long long)v, o != v); tl_inrt--; } \
+        tl_inrt++; point(); TY o = __atomic_load_n(a, __ATOMIC_SEQ_CST); __atomic_store_n(a, v, __ATOMIC_SEQ_CST); after_op(RA, (uintptr_t)a, (unsigned long long)v, o != v); tl_inrt--; } \
     TY __tsan_atomic##BITS##_exchange(volatile TY* a, TY v, int) { \
         if (!hooks_on()) return __atomic_exchange_n(a, v, __ATOMIC_SEQ_CST); \
-        tl_inrt++; point((uintptr_t)a); TY o = __atomic_exchange_n(a, v, __ATOMIC_SEQ_CST); after_op(RA, (uintptr_t)a, (unsigned long long)o, o != v); tl_inrt--; return o; } \
+        tl_inrt++; point(); TY o = __atomic_exchange_n(a, v, __ATOMIC_SEQ_CST); after_op(RA, (uintptr_t)a, (unsigned long long)o, o != v); tl_inrt--; return o; } \
     int __tsan_atomic##BITS##_compare_exchange_strong(volatile TY* a, TY* e, TY d, int, int) { \
         if (!hooks_on()) return __atomic_compare_exchange_n(a, e, d, 0, __ATOMIC_SEQ_CST, __ATOMIC_SEQ_CST); \
-        tl_inrt++; point((uintptr_t)a); TY exp = *e; int ok = __atomic_compare_exchange_n(a, e, d, 0, __ATOMIC_SEQ_CST, __ATOMIC_SEQ_CST); \
+        tl_inrt++; point(); TY exp = *e; int ok = __atomic_compare_exchange_n(a, e, d, 0, __ATOMIC_SEQ_CST, __ATOMIC_SEQ_CST); \
         after_op(RA, (uintptr_t)a, (unsigned long long)*e ^ ((unsigned long long)exp << 1), ok && exp != d); tl_inrt--; return ok; } \
-    int __tsan_atomic##BITS##_compare_exchange_weak(volatile TY* a, TY* e, TY d, int m1, int m2) { \
+    int __tsan_atomic##BITS##_compare_exchange_weak(volatile TY* a, TY* e, TY d, int, int) { \
         if (!hooks_on()) return __atomic_compare_exchange_n(a, e, d, 0, __ATOMIC_SEQ_CST, __ATOMIC_SEQ_CST); \
-        tl_inrt++; point((uintptr_t)a); TY exp = *e; int ok = __atomic_compare_exchange_n(a, e, d, 0, __ATOMIC_SEQ_CST, __ATOMIC_SEQ_CST); \
+        tl_inrt++; point(); TY exp = *e; int ok = __atomic_compare_exchange_n(a, e, d, 0, __ATOMIC_SEQ_CST, __ATOMIC_SEQ_CST); \
         after_op(RA, (uintptr_t)a, (unsigned long long)*e ^ ((unsigned long long)exp << 1), ok && exp != d); tl_inrt--; return ok; } \
     TY __tsan_atomic##BITS##_compare_exchange_val(volatile TY* a, TY e, TY d, int, int) { \
         if (!hooks_on()) { __atomic_compare_exchange_n(a, &e, d, 0, __ATOMIC_SEQ_CST, __ATOMIC_SEQ_CST); return e; } \
-        tl_inrt++; point((uintptr_t)a); TY exp = e; int ok = __atomic_compare_exchange_n(a, &e, d, 0, __ATOMIC_SEQ_CST, __ATOMIC_SEQ_CST); \
+        tl_inrt++; point(); TY exp = e; int ok = __atomic_compare_exchange_n(a, &e, d, 0, __ATOMIC_SEQ_CST, __ATOMIC_SEQ_CST); \
         after_op(RA, (uintptr_t)a, (unsigned long long)e, ok && exp != d); tl_inrt--; return e; }
 #define RMW(BITS, TY, NAME, BUILTIN) \
     TY __tsan_atomic##BITS##_##NAME(volatile TY* a, TY v, int) { \
         if (!hooks_on()) return BUILTIN(a, v, __ATOMIC_SEQ_CST); \
-        tl_inrt++; point((uintptr_t)a); TY o = BUILTIN(a, v, __ATOMIC_SEQ_CST); TY n = __atomic_load_n(a, __ATOMIC_SEQ_CST); \
+        tl_inrt++; point(); TY o = BUILTIN(a, v, __ATOMIC_SEQ_CST); TY n = __atomic_load_n(a, __ATOMIC_SEQ_CST); \
         after_op(RA, (uintptr_t)a, (unsigned long long)o, o != n); tl_inrt--; return o; }
 #define ALLATOMIC(BITS, TY) ATOMIC(BITS, TY) RMW(BITS, TY, fetch_add, __atomic_fetch_add) RMW(BITS, TY, fetch_sub, __atomic_fetch_sub) \
     RMW(BITS, TY, fetch_and, __atomic_fetch_and) RMW(BITS, TY, fetch_or, __atomic_fetch_or) RMW(BITS, TY, fetch_xor, __atomic_fetch_xor) \
@@ -555,7 +626,7 @@ int pthread_mutex_lock(pthread_mutex_t* m) {
     tl_inrt++;
     VMutex* v = vmutex((uintptr_t)m);
     for (;;) {
-        point((uintptr_t)m);
+        point();
         if (v->owner == -1) { v->owner = tl_tid; break; }
         T[tl_tid].st = T_BLOCKED_MUTEX;
         T[tl_tid].wait_obj = (uintptr_t)m;
@@ -569,7 +640,7 @@ int pthread_mutex_trylock(pthread_mutex_t* m) {
     if (!hooks_on()) return 0;
     tl_inrt++;
     VMutex* v = vmutex((uintptr_t)m);
-    point((uintptr_t)m);
+    point();
     int r = EBUSY;
     if (v->owner == -1) { v->owner = tl_tid; r = 0; }
     after_op(RA, (uintptr_t)m, (unsigned long long)r, r == 0);
@@ -580,7 +651,7 @@ int pthread_mutex_unlock(pthread_mutex_t* m) {
     if (!hooks_on()) return 0;
     tl_inrt++;
     VMutex* v = vmutex((uintptr_t)m);
-    point((uintptr_t)m);
+    point();
     v->owner = -1;
     wake_waiters((uintptr_t)m);
     wake_spinners((uintptr_t)m);
@@ -594,7 +665,7 @@ static int rw_acquire(pthread_rwlock_t* l, bool write, bool try_only) {
     VRw* v = vrw((uintptr_t)l);
     int r = 0;
     for (;;) {
-        point((uintptr_t)l);
+        point();
         bool can = write ? (v->writer == -1 && v->readers == 0) : (v->writer == -1);
         if (can) {
             if (write) v->writer = tl_tid; else { v->readers++; v->rd[tl_tid]++; }
@@ -617,7 +688,7 @@ int pthread_rwlock_unlock(pthread_rwlock_t* l) {
     if (!hooks_on()) return 0;
     tl_inrt++;
     VRw* v = vrw((uintptr_t)l);
-    point((uintptr_t)l);
+    point();
     if (v->writer == tl_tid) v->writer = -1;
     else if (v->rd[tl_tid] > 0) { v->rd[tl_tid]--; v->readers--; }
     wake_waiters((uintptr_t)l);
@@ -630,7 +701,7 @@ int sched_yield(void) {
     tl_inrt++;
     flush_pending(tl_tid);
     run_invariant();
-    if (++g_points > S->horizon) finish(RES_LIVELOCK, "step horizon exceeded");
+    if (++g_points > S->horizon) die(RES_LIVELOCK, "step horizon exceeded");
     T[tl_tid].yielded = true;
     decide(tl_tid);
     tl_inrt--;
@@ -645,122 +716,44 @@ void omp_set_num_threads(int n) { g_omp_max = n; }
 int omp_in_parallel(void) { return g_controlled; }
 }  // extern "C"
 
-// ------------------------------------------------------------------------------------------------ explorer (parent side)
-struct RunOut {
-    int status;   // 0 normal, >0 signal number, -1 no result
-    int result;
-};
-
-static RunOut run_once(int scenario, const std::vector<unsigned char>& prefix, bool forced, long horizon) {
-    S->prefix_len = (int)prefix.size();
-    if (!prefix.empty()) memcpy(S->prefix, prefix.data(), prefix.size());
-    S->forced = forced ? 1 : 0;
-    S->horizon = horizon;
-    S->done = 0;
-    S->result = RES_INTERNAL;
-    S->trace_len = 0;
-    S->obs[0] = 0;
-    pid_t pid = fork();
-    if (pid == 0) {
-        child_run(scenario);
-        _exit(0);
-    }
-    int st = 0;
-    waitpid(pid, &st, 0);
-    RunOut o;
-    if (WIFSIGNALED(st)) { o.status = WTERMSIG(st); o.result = -1; }
-    else if (!S->done) { o.status = -1; o.result = -1; }
-    else { o.status = 0; o.result = S->result; }
-    return o;
-}
-
-static std::string json_escape(const std::string& s) {
-    std::string o;
-    for (unsigned char c : s) {
-        if (c == '"' || c == '\\') { o += '\\'; o += (char)c; }
-        else if (c == '\n') o += "\\n";
-        else if (c < 32) { char b[8]; snprintf(b, sizeof b, "\\u%04x", c); o += b; }
-        else o += (char)c;
-    }
-    return o;
-}
-
+// ------------------------------------------------------------------------------------------------ explorer
 static double now() {
     timespec ts;
     clock_gettime(CLOCK_MONOTONIC, &ts);
     return ts.tv_sec + ts.tv_nsec * 1e-9;
 }
 
-struct ExploreStats {
-    long executions = 0, transitions = 0, decisions = 0;
-    int bound_completed = -1;
-    std::set<unsigned long long> outcomes;
-    std::vector<std::string> sample_obs;
-    bool violation = false;
-    std::string vkind, vobs;
-    std::vector<unsigned char> vschedule;   // choice indices
-    std::vector<unsigned char> vtids;       // thread ids per decision
-    bool capped = false;
-    int passes = 0;
-    int conflict_locs = 0;
-    long pruned = 0;
-};
+static void set_prefix(const std::vector<unsigned char>& prefix, bool forced, long horizon) {
+    S->prefix_len = (int)prefix.size();
+    if (!prefix.empty()) memcpy(S->prefix, prefix.data(), prefix.size());
+    S->forced = forced ? 1 : 0;
+    S->horizon = horizon;
+}
 
-static bool explore_bound(int scenario, int bound, long max_exec, double deadline, long horizon, ExploreStats& st) {
-    // returns true if completed without violation
+// Explores all schedules of `scenario` with at most `bound` preemptions. Runs inside the explorer process.
+// Returns false when capped.
+static bool explore_bound(int scenario, int bound, long max_exec, double deadline, long horizon, std::set<unsigned long long>& outcomes) {
     std::vector<std::vector<unsigned char>> stack;
     stack.push_back({});
     while (!stack.empty()) {
         std::vector<unsigned char> prefix = std::move(stack.back());
         stack.pop_back();
-        RunOut o = run_once(scenario, prefix, false, horizon);
-        st.executions++;
-        st.transitions += S->points;
-        st.decisions += S->decisions;
+        set_prefix(prefix, false, horizon);
+        int r = run_execution(scenario);
+        S->executions++;
+        S->transitions += S->points;
         int n = S->trace_len;
-        bool bad = false;
-        std::string kind;
-        if (o.status > 0) {
-            if (o.status == SIGALRM) {
-                // a timed-out deterministic schedule is re-run alone with a much longer limit before it is called a hang
-                RunOut o2 = run_once(scenario, prefix, false, horizon * 20);
-                if (o2.status == 0 && o2.result == RES_OK) { o = o2; n = S->trace_len; }
-                else { bad = true; kind = "hang (no completion within time limit, also when re-run alone)"; }
-            } else { bad = true; kind = std::string("fatal signal ") + strsignal(o.status); }
-        } else if (o.status < 0) { bad = true; kind = "child ended without result"; }
-        if (!bad && o.result == RES_LIVELOCK) {
-            RunOut o2 = run_once(scenario, prefix, false, horizon * 10);
-            if (o2.status == 0 && o2.result == RES_OK) { o = o2; n = S->trace_len; }
-            else { bad = true; kind = result_name(RES_LIVELOCK); }
+        S->decisions += n;
+        S->nodes += (n > (int)prefix.size() ? n - (int)prefix.size() : 0) + 1;
+        if (r != RES_OK) {
+            S->violation = 1;
+            snprintf(S->vkind, sizeof S->vkind, "%s", result_name(r));
+            _exit(3);
         }
-        if (!bad && o.result == RES_DIVERGED) {
-            fprintf(stderr, "vsched: replay of a prefix diverged (nondeterminism in the harness): %s\n", S->obs);
-            exit(2);
+        if (outcomes.insert(S->outcome_hash).second) {
+            S->distinct_outcomes = (int)outcomes.size();
+            if (S->nsamples < 3) { strncpy(S->samples[S->nsamples], S->obs, 1023); S->samples[S->nsamples][1023] = 0; S->nsamples++; }
         }
-        if (!bad && o.result != RES_OK) { bad = true; kind = result_name(o.result); }
-        if (bad) {
-            // for crashes the trace in shared memory is whatever was recorded before the crash
-            st.violation = true;
-            st.vkind = kind;
-            st.vobs = S->obs;
-            st.vschedule.assign(S->chosen, S->chosen + std::min(n > 0 ? n : (int)S->decisions, MAXP));
-            if (o.status != 0) {
-                // crashed: trace_len was not stored; use recorded decisions up to the first unset slot
-                int k = 0;
-                while (k < MAXP && S->nopts[k] != 0) k++;
-                st.vschedule.assign(S->chosen, S->chosen + k);
-                st.vtids.assign(S->chosen_tid, S->chosen_tid + k);
-            } else {
-                st.vtids.assign(S->chosen_tid, S->chosen_tid + n);
-            }
-            return false;
-        }
-        st.outcomes.insert(S->outcome_hash);
-        if (st.sample_obs.size() < 3) {
-            std::string ob = S->obs;
-            if (std::find(st.sample_obs.begin(), st.sample_obs.end(), ob) == st.sample_obs.end()) st.sample_obs.push_back(ob);
-        }
-        // expand alternatives
         int cost = 0;
         std::vector<int> cost_before(n + 1, 0);
         for (int i = 0; i < n; i++) {
@@ -776,54 +769,88 @@ static bool explore_bound(int scenario, int bound, long max_exec, double deadlin
                 stack.push_back(std::move(np));
             }
         }
-        if ((max_exec > 0 && st.executions >= max_exec) || (deadline > 0 && now() > deadline)) {
-            if (!stack.empty()) { st.capped = true; return true; }
+        if ((max_exec > 0 && S->executions >= max_exec) || (deadline > 0 && now() > deadline)) {
+            if (!stack.empty()) return false;
         }
-        // clear nopts markers for crash recovery of the next run
-        memset(S->nopts, 0, (size_t)std::min(n + 1, MAXP));
     }
     return true;
 }
 
-static void merge_conflicts(int* total) {
+static void merge_conflicts() {
     for (int i = 0; i < NCONF; i++)
-        if (S->Dnew[i]) add_set(S->D, S->Dnew[i], total);
+        if (S->Dnew[i]) add_set(S->D, S->Dnew[i], &S->d_count);
     memset(S->Dnew, 0, sizeof S->Dnew);
     S->dnew_count = 0;
 }
 
-static void print_result(int scenario, int bound, const ExploreStats& st, double secs) {
-    printf("{\"scenario\": %d, \"desc\": \"%s\", \"bound_requested\": %d, \"bound_completed\": %d, \"executions\": %ld, \"transitions\": %ld, \"decisions\": %ld, "
-           "\"distinct_outcomes\": %zu, \"passes\": %d, \"conflict_locations\": %d, \"capped\": %s, \"secs\": %.2f, \"samples\": [",
-           scenario, json_escape(vs_describe(scenario)).c_str(), bound, st.bound_completed, st.executions, st.transitions, st.decisions, st.outcomes.size(),
-           st.passes, st.conflict_locs, st.capped ? "true" : "false", secs);
-    for (size_t i = 0; i < st.sample_obs.size(); i++) printf("%s\"%s\"", i ? ", " : "", json_escape(st.sample_obs[i]).c_str());
-    printf("], \"violation\": ");
-    if (!st.violation) printf("null");
-    else {
-        printf("{\"kind\": \"%s\", \"obs\": \"%s\", \"schedule\": [", json_escape(st.vkind).c_str(), json_escape(st.vobs).c_str());
-        for (size_t i = 0; i < st.vschedule.size(); i++) printf("%s%d", i ? "," : "", st.vschedule[i]);
-        printf("], \"threads\": [");
-        for (size_t i = 0; i < st.vtids.size(); i++) printf("%s%d", i ? "," : "", st.vtids[i]);
-        printf("]}");
+static void explorer_process(int scenario, int bound, long max_exec, double budget, long horizon, int dpoints) {
+    {
+        cpu_set_t set;
+        CPU_ZERO(&set);
+        int c = sched_getcpu();
+        if (c >= 0 && !getenv("VSCHED_NO_PIN")) { CPU_SET(c, &set); sched_setaffinity(0, sizeof set, &set); }
     }
-    printf("}\n");
-    fflush(stdout);
+    double deadline = budget > 0 ? now() + budget : 0;
+    g_debug = getenv("VSCHED_DEBUG") != nullptr;
+    for (int pass = 0; pass < 8; pass++) {
+        S->passes = pass + 1;
+        S->executions = S->transitions = S->decisions = S->nodes = 0;
+        S->bound_completed = -1;
+        S->distinct_outcomes = 0;
+        S->nsamples = 0;
+        std::set<unsigned long long> outcomes;
+        bool complete = true;
+        for (int b = 0; b <= bound && complete; b++) {
+            S->bound_running = b;
+            complete = explore_bound(scenario, b, max_exec, deadline, horizon, outcomes);
+            if (complete) S->bound_completed = b;
+        }
+        if (!complete) { S->capped = 1; merge_conflicts(); break; }
+        int before = S->d_count;
+        merge_conflicts();
+        if (!dpoints || S->d_count == before) break;
+    }
+    S->finished = 1;
+    _exit(0);
 }
 
-static std::vector<unsigned char> parse_list(const char* s) {
-    std::vector<unsigned char> v;
+static std::string json_escape(const std::string& s) {
+    std::string o;
+    for (unsigned char c : s) {
+        if (c == '"' || c == '\\') { o += '\\'; o += (char)c; }
+        else if (c == '\n') o += "\\n";
+        else if (c < 32 || c > 126) { char b[8]; snprintf(b, sizeof b, "\\u%04x", c); o += b; }
+        else o += (char)c;
+    }
+    return o;
+}
+
+static void print_list(const char* name, const unsigned char* a, int n) {
+    printf("\"%s\": [", name);
+    for (int i = 0; i < n; i++) printf("%s%d", i ? "," : "", a[i]);
+    printf("]");
+}
+
+static void print_conflicts() {
+    printf("\"conflicts\": [");
+    bool first = true;
+    for (int i = 0; i < NCONF; i++)
+        if (S->D[i]) { printf("%s%lu", first ? "" : ",", (unsigned long)S->D[i]); first = false; }
+    printf("]");
+}
+
+static std::vector<unsigned long> parse_ulist(const char* s) {
+    std::vector<unsigned long> v;
     while (*s) {
         while (*s == ',' || *s == ' ') s++;
         if (!*s) break;
-        v.push_back((unsigned char)strtol(s, (char**)&s, 10));
+        v.push_back(strtoul(s, (char**)&s, 10));
     }
     return v;
 }
 
-#include <sys/personality.h>
 int main(int argc, char** argv) {
-    // identical address-space layout in every invocation (replays recompute the conflict-location set)
+    // identical address-space layout in every invocation (replay artefacts carry conflict-location addresses)
     {
         int pers = personality(0xffffffff);
         if (pers != -1 && !(pers & ADDR_NO_RANDOMIZE) && !getenv("VSCHED_NO_REEXEC")) {
@@ -835,11 +862,20 @@ int main(int argc, char** argv) {
     }
     S = (Shared*)mmap(nullptr, sizeof(Shared), PROT_READ | PROT_WRITE, MAP_SHARED | MAP_ANONYMOUS, -1, 0);
     if (S == MAP_FAILED) { perror("mmap"); return 2; }
-    memset(S, 0, sizeof(Shared));
+    {
+        // arenas at a fixed address
+        void* want = (void*)0x500000000000UL;
+        size_t total = (size_t)(VS_MAX_THREADS + 1) * ARENA_SIZE;
+        void* p = mmap(want, total, PROT_READ | PROT_WRITE, MAP_PRIVATE | MAP_ANONYMOUS | MAP_NORESERVE | MAP_FIXED_NOREPLACE, -1, 0);
+        if (p == MAP_FAILED) p = mmap(nullptr, total, PROT_READ | PROT_WRITE, MAP_PRIVATE | MAP_ANONYMOUS | MAP_NORESERVE, -1, 0);
+        if (p == MAP_FAILED) { perror("mmap arenas"); return 2; }
+        for (int a = 0; a <= VS_MAX_THREADS; a++) g_arena[a] = (char*)p + (size_t)a * ARENA_SIZE;
+    }
     int from = -1, to = -1, bound = 2, dpoints = 1;
     long max_exec = 0, horizon = 20000;
     double budget = 0;
     const char* replay = nullptr;
+    const char* conflicts = nullptr;
     bool forced = false, list = false;
     for (int i = 1; i < argc; i++) {
         std::string a = argv[i];
@@ -853,6 +889,7 @@ int main(int argc, char** argv) {
         else if (a == "--dpoints" && i + 1 < argc) dpoints = atoi(argv[++i]);
         else if (a == "--replay" && i + 1 < argc) { from = atoi(argv[++i]); to = from + 1; }
         else if (a == "--schedule" && i + 1 < argc) replay = argv[++i];
+        else if (a == "--conflicts" && i + 1 < argc) conflicts = argv[++i];
         else if (a == "--forced") forced = true;
         else { fprintf(stderr, "unknown argument %s\n", a.c_str()); return 2; }
     }
@@ -861,60 +898,84 @@ int main(int argc, char** argv) {
         for (int s = 0; s < n; s++) printf("%d\t%s\n", s, vs_describe(s));
         return 0;
     }
-    if (from < 0) { fprintf(stderr, "usage: harness --list | --explore S [--bound B] | --range A B | --replay S --schedule c0,c1,.. [--forced]\n"); return 2; }
-    S->use_dpoints = dpoints;
+    if (from < 0) { fprintf(stderr, "usage: harness --list | --explore S [--bound B] | --range A B | --replay S --schedule c0,c1,.. [--conflicts a,b,..] [--forced]\n"); return 2; }
+    int nsc = vs_nscenarios();
     if (replay) {
-        // replay one schedule (choice indices, or thread ids with --forced). To make choice indices meaningful the
-        // conflict set must be the one of the exploring run: it is recomputed by running the default schedule passes first.
-        std::vector<unsigned char> sched = parse_list(replay);
-        if (!forced && dpoints) {
-            // re-establish the conflict-location fixpoint exactly as exploration does (bound given on the command line)
-            int total = 0;
-            for (int pass = 0; pass < 6; pass++) {
-                ExploreStats tmp;
-                for (int b = 0; b <= bound; b++) if (!explore_bound(from, b, max_exec, 0, horizon, tmp) || tmp.violation) break;
-                int before = total;
-                merge_conflicts(&total);
-                if (total == before) break;
-                if (tmp.violation) break;
-            }
+        memset(S, 0, sizeof(Shared));
+        S->use_dpoints = dpoints;
+        if (conflicts) for (unsigned long a : parse_ulist(conflicts)) add_set(S->D, (uintptr_t)a, &S->d_count);
+        std::vector<unsigned char> sched;
+        for (unsigned long x : parse_ulist(replay)) sched.push_back((unsigned char)x);
+        set_prefix(sched, forced, horizon * 10);
+        pid_t pid = fork();
+        if (pid == 0) {
+            alarm(600);
+            int r = run_execution(from);
+            _exit(r == RES_OK ? 0 : 3);
         }
-        RunOut o = run_once(from, sched, forced, horizon * 10);
-        std::string kind = o.status > 0 ? std::string("fatal signal ") + strsignal(o.status) : o.status < 0 ? "no result" : result_name(o.result);
-        printf("{\"replay\": true, \"result\": \"%s\", \"obs\": \"%s\", \"threads\": [", json_escape(kind).c_str(), json_escape(S->obs).c_str());
-        for (int i = 0; i < S->trace_len; i++) printf("%s%d", i ? "," : "", S->chosen_tid[i]);
-        printf("]}\n");
-        return (o.status == 0 && o.result == RES_OK) ? 0 : 1;
+        int st = 0;
+        waitpid(pid, &st, 0);
+        std::string kind;
+        bool bad = true;
+        if (WIFSIGNALED(st)) kind = std::string("fatal signal ") + strsignal(WTERMSIG(st));
+        else if (WEXITSTATUS(st) == 0) { kind = "ok"; bad = false; }
+        else if (WEXITSTATUS(st) == 3) kind = S->violation ? S->vkind : result_name(S->result);
+        else kind = "internal error";
+        printf("{\"replay\": true, \"result\": \"%s\", \"obs\": \"%s\", ", json_escape(kind).c_str(), json_escape(S->obs).c_str());
+        print_list("threads", S->chosen_tid, S->trace_len);
+        printf("}\n");
+        return bad ? 1 : 0;
     }
     int rc = 0;
-    for (int s = from; s < to && s < vs_nscenarios(); s++) {
+    for (int s = from; s < to && s < nsc; s++) {
         double t0 = now();
-        double deadline = budget > 0 ? t0 + budget : 0;
-        ExploreStats st;
-        memset(S->D, 0, sizeof S->D);
-        memset(S->Dnew, 0, sizeof S->Dnew);
-        S->dnew_count = 0;
-        int total = 0;
-        // passes until the set of conflict locations is stable; the result of the last pass is what counts
-        for (int pass = 0; pass < 8; pass++) {
-            ExploreStats cur;
-            cur.passes = pass + 1;
-            bool ok = true;
-            for (int b = 0; b <= bound && ok; b++) {
-                ok = explore_bound(s, b, max_exec, deadline, horizon, cur);
-                if (ok && !cur.capped) cur.bound_completed = b;
-                if (cur.capped) break;
-            }
-            int before = total;
-            merge_conflicts(&total);
-            cur.conflict_locs = total;
-            st = cur;
-            if (cur.violation) break;
-            if (!dpoints || total == before) break;
-            if (cur.capped) break;
+        memset(S, 0, sizeof(Shared));
+        S->use_dpoints = dpoints;
+        pid_t pid = fork();
+        if (pid == 0) {
+            alarm(budget > 0 ? (unsigned)(budget * 3 + 120) : 3600);
+            explorer_process(s, bound, max_exec, budget, horizon, dpoints);
+            _exit(0);
         }
-        print_result(s, bound, st, now() - t0);
-        if (st.violation) rc = 1;
+        int st = 0;
+        waitpid(pid, &st, 0);
+        bool violation = false;
+        std::string kind;
+        if (WIFSIGNALED(st)) {
+            violation = true;
+            if (WTERMSIG(st) == SIGALRM) kind = "hang (an execution did not complete within the time limit)";
+            else kind = std::string("fatal signal ") + strsignal(WTERMSIG(st));
+            if (!S->running) { kind += " outside an execution"; }
+        } else if (WEXITSTATUS(st) == 3) {
+            violation = true;
+            kind = S->vkind;
+        } else if (WEXITSTATUS(st) != 0 || !S->finished) {
+            fprintf(stderr, "vsched: explorer for scenario %d failed (status %d)\n", s, st);
+            return 2;
+        }
+        printf("{\"scenario\": %d, \"desc\": \"%s\", \"bound_requested\": %d, \"bound_completed\": %d, \"executions\": %ld, \"transitions\": %ld, \"decisions\": %ld, "
+               "\"nodes\": %ld, \"distinct_outcomes\": %d, \"passes\": %d, \"conflict_locations\": %d, \"capped\": %s, \"secs\": %.2f, \"samples\": [",
+               s, json_escape(vs_describe(s)).c_str(), bound, S->bound_completed, S->executions, S->transitions, S->decisions, S->nodes, S->distinct_outcomes,
+               S->passes, S->d_count, S->capped ? "true" : "false", now() - t0);
+        for (int i = 0; i < S->nsamples; i++) printf("%s\"%s\"", i ? ", " : "", json_escape(S->samples[i]).c_str());
+        printf("], \"violation\": ");
+        if (!violation) printf("null");
+        else {
+            printf("{\"kind\": \"%s\", \"obs\": \"%s\", ", json_escape(kind).c_str(), json_escape(S->obs).c_str());
+            // the schedule that was running: replayed prefix followed by the choices recorded so far
+            int n = S->trace_len;
+            std::vector<unsigned char> sched(S->chosen, S->chosen + n);
+            if (n < S->prefix_len) { sched.assign(S->prefix, S->prefix + S->prefix_len); }
+            print_list("schedule", sched.data(), (int)sched.size());
+            printf(", ");
+            print_list("threads", S->chosen_tid, n);
+            printf(", ");
+            print_conflicts();
+            printf("}");
+            rc = 1;
+        }
+        printf("}\n");
+        fflush(stdout);
     }
     return rc;
 }
